@@ -12,7 +12,8 @@
 EXTENDS Universe, Json
 
 CONSTANTS MaxSize,   \* bound on tokens + minimal completion of open holes
-          Prof       \* profile record, see MCQueryGen.tla
+          Prof,      \* profile record, see MCQueryGen.tla
+          GenBackend \* "any", or the backend whose collection table restricts the Coll productions
 
 VARIABLES toks, agenda
 gvars == <<toks, agenda>>
@@ -105,12 +106,13 @@ BoolProds(env) ==
   \cup (IF Prof.boolConst THEN {P(Tok("Const", "bool", "", 1, 1), <<>>)} ELSE {})
 
 HasEv(env) == VarsOf(env, EV) # {}
+Available(coll) == GenBackend = "any" \/ Backends[GenBackend].colls[coll].py # ""
 
 ObjProds(c, env) ==
      VarProds(O(c), env)
   \cup (IF HasEv(env)
         THEN {P(Tok("Single", cb[1], cb[2], 0, 1), <<Hole(EV, env)>>) :
-                cb \in {cb \in Prof.singles : CollClass[cb[1]] = c}}
+                cb \in {cb \in Prof.singles : CollClass[cb[1]] = c /\ Available(cb[1])}}
         ELSE {})
   \cup (IF Prof.first THEN {P(Tok("First", "", "", 0, 1), <<Hole(S(O(c)), env)>>)} ELSE {})
   \cup ObjMeth(c, env)
@@ -123,7 +125,7 @@ SeqProds(e, env) ==
   \cup (IF e.h \in {"num", "obj"} THEN VecProds(e, env) ELSE {})
   \cup (IF e.h = "obj" /\ HasEv(env)
         THEN {P(Tok("Coll", cb[1], cb[2], 0, 1), <<Hole(EV, env)>>) :
-                cb \in {cb \in Prof.colls : CollClass[cb[1]] = e.c}}
+                cb \in {cb \in Prof.colls : CollClass[cb[1]] = e.c /\ Available(cb[1])}}
         ELSE {})
   \cup {P(Tok("Select", Fresh(env), "", 0, 1), <<Hole(S(s), env), Hole(e, Ext(env, Fresh(env), s))>>) :
           s \in IF Prof.select THEN ElemTypes ELSE {}}
